@@ -216,3 +216,52 @@ def c08(pid, tier, replay):
 
 REGISTRY = {"C01": c01, "C02": c02, "C03": c03, "C04": c04, "C05": c05, "C06": c06, "C07": c07, "C08": c08,
             "C13": c13, "C14": c14}
+
+
+# ---------------------------------------------------------------------------------------------
+# function-shaped properties
+
+import subprocess
+
+import casecheck
+
+
+def run_cmd(cmd, timeout=1800, cwd=None):
+    r = subprocess.run(cmd, stdout=subprocess.PIPE, stderr=subprocess.PIPE, text=True, timeout=timeout, cwd=cwd)
+    if r.returncode != 0:
+        raise Infra("%s failed: %s" % (cmd[0:2], r.stderr[-3000:]))
+    return r
+
+
+def c11(pid, tier, replay):
+    scr = vlib.Scratch(pid)
+    out = casecheck.CaseOutcome(pid, tier, ["C11_"])
+    h = scr.build()
+    must, res0 = casecheck.tlc_print(scr, "NoteNamesTrace", "MUSTLOG")
+    mpath = scr.fresh("mustlog") + ".json"
+    maxlen, samples = (3, 20000) if tier == "quick" else (4, 200000)
+    if replay:
+        with open(replay) as f:
+            rp = json.load(f)
+        must, maxlen, samples = sorted(set(must) | {rp["case"].get("s", "")}), 1, 0
+    with open(mpath, "w") as f:
+        json.dump(sorted(must), f)
+    t = scr.fresh("notes") + ".ndjson"
+    run_cmd([h, "notes", str(maxlen), "8", str(vlib.seed()), str(samples), mpath, t])
+    r = vlib.validate_trace(scr, "NoteNamesTrace", t)
+    out.add(t, r, sample_filter=lambda d: d.get("ev") == "s2n")
+    with open(t) as f:
+        tried = [json.loads(x) for x in f if '"summary"' in x][0]["tried"]
+    out.extra["evaluations"] = tried
+    out.extra["strings_tried"] = tried
+    out.notes.append("all %d strings of length <= %d over letters, digits, '#', '-', space were passed to the real StringToNote; "
+                     "accepted ones, the 256 valid spellings, the open '-0' spellings and %d seeded longer strings / edits "
+                     "were logged and judged by TLC" % (tried - samples, maxlen, samples))
+    return out.finish(rule="every string of the exhaustive space is executed on the real code; logged cases (accepted, valid, sampled) "
+                           "are judged by NoteNames!Judge; distinct_nontrivial = logged cases",
+                      assumptions=["a string StringToNote rejects and that is not one of the 256 valid spellings needs no judgement "
+                                   "(rejection is the specified result), so only its count is recorded"],
+                      exhaustive=True)
+
+
+REGISTRY["C11"] = c11
